@@ -9,12 +9,13 @@ from ..model import close, convert
 ID = "C12"
 LEVEL = "exploration"
 ENGINE = "E3"
-QUICK_RUNS = 20000
+QUICK_RUNS = 12000
 THOROUGH_RUNS = 2000000
-QUICK_WALL = 100
+QUICK_WALL = 90
 THOROUGH_WALL = 900
-CHUNK = 300
-OWN = {"link-value", "range-false-refuse", "range-not-refused", "link-exception", "push-raises", "link-units"}
+CHUNK = 100
+OWN = {"link-value", "range-false-refuse", "range-not-refused", "link-exception", "push-raises", "link-units", "link-mask",
+       "link-shape"}
 RENAME = {"link-value": "integral-value", "link-units": "integral-units"}
 RULE = ("one irregular publication series consumed through two instances of the same integration adapter "
         "(AvgOverTime / SumOverTime, linear or step position 0..1, per-time or absolute) with two different "
@@ -116,6 +117,8 @@ def generate(tape, tier="quick"):
     if tape.chance(1, 4):
         from ..grids import gen_structured
         src["grid"] = gen_structured(tape, max_dim=2, max_len=3)
+        if tape.chance(1, 3):
+            src["masked"] = tape.choice(["partial", "nomask"])
     if tape.chance(1, 4):
         # storage pressure: the adapters' buffers (and the source's history) partly or completely in spill files
         for c in cons:
@@ -138,7 +141,9 @@ def execute(sc):
     prev = [None, None]
     scale = 2.0 if sc["consumers"][0]["chain"][0]["kind"] == "scale" else 1.0
     rig = r["rig"]
-    base0 = 0.0 if rig.base is None else float(rig.base.reshape(-1)[0])    # logged value = first grid element
+    base0 = 0.0 if rig.base is None else float(rig.base.reshape(-1)[rig.log_idx])    # logged value = first (unmasked) grid element
+    # (a grid whose every cell is masked delivers no value at all: nothing to compare then)
+    allmasked = rig.maskarr is not None and bool(rig.maskarr.all())
     for e in log:
         if e[0] != "PULL" or e[3] != "val":
             continue
@@ -159,7 +164,7 @@ def execute(sc):
                 if Fraction(hi) > prev[ci] and Fraction(lo) < t:
                     contrib.append(convert((vp + base0) * scale, sc["src"]["units"], sc["consumers"][0].get("units")
                                            or sc["src"]["units"]))
-            if contrib and done and not (min(contrib) - 1e-9 * (1 + abs(min(contrib))) <= val <= max(contrib) + 1e-9 * (1 + abs(max(contrib)))):
+            if contrib and done and not allmasked and not (min(contrib) - 1e-9 * (1 + abs(min(contrib))) <= val <= max(contrib) + 1e-9 * (1 + abs(max(contrib)))):
                 viol.append({"oracle": "avg-range", "kind": "range", "consumer": ci,
                              "msg": f"average {val} over ({prev[ci]}, {t}] outside the range [{min(contrib)}, {max(contrib)}] of contributing values"})
         cnt[ci] += 1
@@ -172,7 +177,7 @@ def execute(sc):
     span = float(pubs[-1][0] - pubs[0][0]) if len(pubs) > 1 else 1.0
     if sc["kind"] == "sum" and a.get("per_time", True):
         span *= 3600.0
-    if complete and not close(tot[0], tot[1], rel=1e-9, ab=1e-9 * vmax * max(span, 1.0) * 4.0 + 1e-9):
+    if complete and not allmasked and not close(tot[0], tot[1], rel=1e-9, ab=1e-9 * vmax * max(span, 1.0) * 4.0 + 1e-9):
         viol.append({"oracle": "partition-sum", "kind": sc["kind"], "consumer": 0,
                      "msg": f"total delivered over the same period differs between partitions: {tot[0]} vs {tot[1]}"})
     return {"violations": viol, "digest": r["digest"], "probes": r["probes"], "faults": {},
